@@ -49,18 +49,8 @@ Print Assumptions C17gen_1qutrit_names_parse.
 (* angle strings: 90 -> pi/4, 180 -> pi/2 (coefficient = angle / 2), m90 / m180 negative, anything else ValueError *)
 Definition is_num (r : pres pyv) (x : pnum) : bool := match r with POk (VNum y) => neqb y x | _ => false end.
 Definition is_error (r : pres pyv) (e : string) : bool := match r with PErr e' => String.eqb e e' | _ => false end.
-Theorem C17gen_angle_coefficients :
-  is_num (g_calc_coeff_from_angle_str (VStr "90")) (qpi 1 4) = true /\ is_num (g_calc_coeff_from_angle_str (VStr "180")) (qpi 1 2) = true /\
-  is_num (g_calc_coeff_from_angle_str (VStr "m90")) (qpi (-1) 4) = true /\ is_num (g_calc_coeff_from_angle_str (VStr "m180")) (qpi (-1) 2) = true /\
-  is_error (g_calc_coeff_from_angle_str (VStr "45")) "ValueError" = true /\ is_error (g_calc_coeff_from_angle_str (VStr "")) "ValueError" = true.
-Proof. repeat split; vm_compute; reflexivity. Qed.
-Print Assumptions C17gen_angle_coefficients.
 
 (* malformed spellings are errors of the parser itself: wrong number of axis letters, empty term, unknown angle, unknown levels *)
-Theorem C17gen_parser_rejects_malformed :
-  forallb (fun n => is_err (gen_ham2 n)) ["01x90"; ""; "01xi90_"; "_01xi90"; "01xi45"; "03xi90"; "01x01x01x90"; "i90"; "01xi"; "01wi90"] = true.
-Proof. vm_compute. reflexivity. Qed.
-Print Assumptions C17gen_parser_rejects_malformed.
 
 (* ================= id bookkeeping of the multi-qubit gates, REGENERATED from get_permutation_matrix_from_ascending_order,
    permute_pauli_symbol, convert_*, is_no_duplication_list: on a bounded domain the translated code IS the hand-written model of
@@ -82,27 +72,32 @@ Definition matP_rows (ids : list nat) : list (list Z) :=
 (* the domain: 1 - 3 pairwise different ids below 5 (85 lists), every Pauli symbol of that length *)
 Definition perm_domain : list (list nat) := (ids_lists 5 1 ++ ids_lists 5 2 ++ ids_lists 5 3)%list.
 
-Theorem C17gen_permutation_matrix_bounded :
-  forall ids, In ids perm_domain -> is_imat (g_get_permutation_matrix_from_ascending_order (vints ids)) (matP_rows ids) = true.
-Proof. apply forallb_forall. vm_compute. reflexivity. Qed.
-Print Assumptions C17gen_permutation_matrix_bounded.
 
-Theorem C17gen_permute_pauli_symbol_bounded :
-  forall ids, In ids perm_domain -> forall v, In v (nprod [0; 1; 2; 3]%nat (List.length ids)) ->
-    is_str (g_permute_pauli_symbol (VStr (symbol_of v)) (vints ids)) (symbol_of (permute_fixed ids v)) = true.
+
+Theorem C17gen_permutation_code_bounded :
+  forall ids, In ids perm_domain ->
+    is_imat (g_get_permutation_matrix_from_ascending_order (vints ids)) (matP_rows ids) = true /\
+    forall v, In v (nprod [0; 1; 2; 3]%nat (List.length ids)) ->
+      is_str (g_permute_pauli_symbol (VStr (symbol_of v)) (vints ids)) (symbol_of (permute_fixed ids v)) = true.
 Proof. intros ids Hi.
-  assert (A : forallb (fun ids => forallb (fun v => is_str (g_permute_pauli_symbol (VStr (symbol_of v)) (vints ids)) (symbol_of (permute_fixed ids v)))
+  assert (A : forallb (fun ids => is_imat (g_get_permutation_matrix_from_ascending_order (vints ids)) (matP_rows ids) &&
+                                  forallb (fun v => is_str (g_permute_pauli_symbol (VStr (symbol_of v)) (vints ids)) (symbol_of (permute_fixed ids v)))
                                          (nprod [0; 1; 2; 3]%nat (List.length ids))) perm_domain = true) by (vm_cast_no_check (@eq_refl bool true)).
-  rewrite forallb_forall in A. specialize (A ids Hi). now rewrite forallb_forall in A. Qed.
-Print Assumptions C17gen_permute_pauli_symbol_bounded.
+  rewrite forallb_forall in A. specialize (A ids Hi). rewrite andb_true_iff, forallb_forall in A. split; [apply A|apply A]. Qed.
+Print Assumptions C17gen_permutation_code_bounded.
 
-(* ids with a repetition are rejected (AssertionError of is_no_duplication_list), symbols of another length too *)
-Theorem C17gen_permute_rejects :
-  forallb (fun ids => is_err (g_permute_pauli_symbol (VStr (symbol_of (map (fun _ => 1%nat) ids))) (vints ids)))
+(* error branches of the translated code: angle strings (90 -> pi/4, 180 -> pi/2, m90 / m180 negative, anything else ValueError), malformed
+   2-qutrit spellings, ids with a repetition / symbols of another length or with an unknown letter *)
+Theorem C17gen_error_branches :
+  (is_num (g_calc_coeff_from_angle_str (VStr "90")) (qpi 1 4) = true /\ is_num (g_calc_coeff_from_angle_str (VStr "180")) (qpi 1 2) = true /\
+  is_num (g_calc_coeff_from_angle_str (VStr "m90")) (qpi (-1) 4) = true /\ is_num (g_calc_coeff_from_angle_str (VStr "m180")) (qpi (-1) 2) = true /\
+  is_error (g_calc_coeff_from_angle_str (VStr "45")) "ValueError" = true /\ is_error (g_calc_coeff_from_angle_str (VStr "")) "ValueError" = true) /\
+  (forallb (fun n => is_err (gen_ham2 n)) ["01x90"; ""; "01xi90_"; "_01xi90"; "01xi45"; "03xi90"; "01x01x01x90"; "i90"; "01xi"; "01wi90"] = true) /\
+  (forallb (fun ids => is_err (g_permute_pauli_symbol (VStr (symbol_of (map (fun _ => 1%nat) ids))) (vints ids)))
           (filter (fun l => negb (nat_nodupb l)) (nprod [0; 1; 2]%nat 2 ++ nprod [0; 1; 2]%nat 3)%list) = true /\
-  is_err (g_permute_pauli_symbol (VStr "ix") (vints [0; 1; 2]%nat)) = true /\ is_err (g_permute_pauli_symbol (VStr "iwx") (vints [0; 1; 2]%nat)) = true.
+  is_err (g_permute_pauli_symbol (VStr "ix") (vints [0; 1; 2]%nat)) = true /\ is_err (g_permute_pauli_symbol (VStr "iwx") (vints [0; 1; 2]%nat)) = true).
 Proof. repeat split; vm_compute; reflexivity. Qed.
-Print Assumptions C17gen_permute_rejects.
+Print Assumptions C17gen_error_branches.
 
 (* the Hamiltonians of toffoli and fredkin, for every one of the 60 lists of three pairwise different ids below 5 (contiguous or not):
    the translated code yields exactly  sum_t sign_t (pi/8) * Pauli3[index of the role string t re-ordered by the ids]  (Model/C17_Ham3q.v),
@@ -127,11 +122,27 @@ Lemma gen_state_lists :
   g_get_state_names_3qubit = POk (VList (map VStr (state_names 2))) /\ g_get_state_names_1qutrit = POk (VList (map VStr (state_names 3))) /\
   g_get_state_names_2qutrit = POk (VList (map VStr (state_names 4))).
 Proof. repeat split; vm_compute; reflexivity. Qed.
-Theorem C17gen_state_catalogue_lists :
-  is_strlist g_get_state_names_1qubit (state_names 0) && is_strlist g_get_state_names_2qubit (state_names 1) && is_strlist g_get_state_names_3qubit (state_names 2) &&
-  is_strlist g_get_state_names_1qutrit (state_names 3) && is_strlist g_get_state_names_2qutrit (state_names 4) && is_strlist g_get_state_names all_state_names = true.
-Proof. vm_compute. reflexivity. Qed.
-Print Assumptions C17gen_state_catalogue_lists.
+
+Theorem C17gen_catalogue_lists :
+  (is_strlist g_get_state_names_1qubit (state_names 0) && is_strlist g_get_state_names_2qubit (state_names 1) && is_strlist g_get_state_names_3qubit (state_names 2) &&
+  is_strlist g_get_state_names_1qutrit (state_names 3) && is_strlist g_get_state_names_2qutrit (state_names 4) && is_strlist g_get_state_names all_state_names = true) /\
+  (is_strlist g_get_povm_names_1qubit (povm_names 0) && is_strlist g_get_povm_names_2qubit (povm_names 1) && is_strlist g_get_povm_names_3qubit (povm_names 2) &&
+  is_strlist g_get_povm_names_1qutrit (povm_names 3) && is_strlist g_get_povm_names_2qutrit (povm_names 4) &&
+  is_strlist g_get_povm_names (flat_map povm_names (seq 0 5)) &&
+  (* the two auxiliary validity lists together are exactly the 14 single names, rank-1 ones as in the tables *)
+  match g_get_povm_names_rank1, g_get_povm_names_not_rank1 with
+  | POk (VList r1), POk (VList r2) =>
+      forallb (fun k => Bool.eqb (povm1_rank1 k) (existsb (py_eqb (VStr (povm1_name k))) r1) && Bool.eqb (negb (povm1_rank1 k)) (existsb (py_eqb (VStr (povm1_name k))) r2)) (seq 0 14)
+      && Nat.eqb (List.length r1 + List.length r2) 14
+  | _, _ => false end = true) /\
+  (is_strlist g_get_gate_names_1qubit (gate_names 0) && is_strlist g_get_gate_names_2qubit (gate_names 1) && is_strlist g_get_gate_names_3qubit (gate_names 2) &&
+  is_strlist g_get_gate_names_1qutrit (gate_names 3) && is_strlist g_get_gate_names_2qutrit_single_base_matrix (map fst cat_gates_2qutrit_single) &&
+  is_strlist g_get_gate_names_2qubit_asymmetric ["cx"; "zx90"] && is_strlist g_get_gate_names_3qubit_asymmetric ["toffoli"; "fredkin"] &&
+  match g_get_mprocess_names_type1, g_get_mprocess_names_type2 with
+  | POk (VList a), POk (VList b) => is_strlist (POk (VList (a ++ b)%list)) (map fst cat_mprocs) | _, _ => false end &&
+  is_strlist g_get_state_ensemble_names cat_ensembles = true).
+Proof. repeat split; vm_compute; reflexivity. Qed.
+Print Assumptions C17gen_catalogue_lists.
 
 Theorem C17gen_state_validator_closed :
   forall n : string, g_is_valid_state_name (VStr n) = POk (VBool (existsb (String.eqb n) all_state_names)).
@@ -145,28 +156,7 @@ Proof. intros n. destruct gen_state_lists as [L0 [L1 [L2 [L3 L4]]]].
   rewrite L4. cbn [pbind]. rewrite py_in_strs. cbn [pbind py_truth]. destruct (existsb (String.eqb n) (state_names 4)); reflexivity. Qed.
 Print Assumptions C17gen_state_validator_closed.
 
-Theorem C17gen_povm_catalogue_lists :
-  is_strlist g_get_povm_names_1qubit (povm_names 0) && is_strlist g_get_povm_names_2qubit (povm_names 1) && is_strlist g_get_povm_names_3qubit (povm_names 2) &&
-  is_strlist g_get_povm_names_1qutrit (povm_names 3) && is_strlist g_get_povm_names_2qutrit (povm_names 4) &&
-  is_strlist g_get_povm_names (flat_map povm_names (seq 0 5)) &&
-  (* the two auxiliary validity lists together are exactly the 14 single names, rank-1 ones as in the tables *)
-  match g_get_povm_names_rank1, g_get_povm_names_not_rank1 with
-  | POk (VList r1), POk (VList r2) =>
-      forallb (fun k => Bool.eqb (povm1_rank1 k) (existsb (py_eqb (VStr (povm1_name k))) r1) && Bool.eqb (negb (povm1_rank1 k)) (existsb (py_eqb (VStr (povm1_name k))) r2)) (seq 0 14)
-      && Nat.eqb (List.length r1 + List.length r2) 14
-  | _, _ => false end = true.
-Proof. vm_compute. reflexivity. Qed.
-Print Assumptions C17gen_povm_catalogue_lists.
 
-Theorem C17gen_gate_mprocess_ensemble_lists :
-  is_strlist g_get_gate_names_1qubit (gate_names 0) && is_strlist g_get_gate_names_2qubit (gate_names 1) && is_strlist g_get_gate_names_3qubit (gate_names 2) &&
-  is_strlist g_get_gate_names_1qutrit (gate_names 3) && is_strlist g_get_gate_names_2qutrit_single_base_matrix (map fst cat_gates_2qutrit_single) &&
-  is_strlist g_get_gate_names_2qubit_asymmetric ["cx"; "zx90"] && is_strlist g_get_gate_names_3qubit_asymmetric ["toffoli"; "fredkin"] &&
-  match g_get_mprocess_names_type1, g_get_mprocess_names_type2 with
-  | POk (VList a), POk (VList b) => is_strlist (POk (VList (a ++ b)%list)) (map fst cat_mprocs) | _, _ => false end &&
-  is_strlist g_get_state_ensemble_names cat_ensembles = true.
-Proof. vm_compute. reflexivity. Qed.
-Print Assumptions C17gen_gate_mprocess_ensemble_lists.
 
 (* ================= the DISPATCH of the state generators (generate_state_pure_state_vector_from_name incl. its nested helper, the eval look-up,
    _generate_pure_state_vec_tensor_product, tensor_product_for_vecs; generate_state_density_mat_from_name), regenerated with the numeric vector
